@@ -16,7 +16,7 @@ EXPR_PLAIN = ["0", "1", "10", "-1", "1.5", "'abc'", "'it''s'", "''", "'a b'", "C
               # parenthesised literals / expressions, the way SQLite's grammar writes expression defaults
               "('abc')", "('{}')", "('[]')", "('it''s')", "('a b')", "('')", "(10)", "(-1)", "(0)", "0.5", "(0.5)", "(lower('A'))",
               "(CURRENT_TIMESTAMP)", "(NULL)", "(TRUE)"]
-EXPR_ODD = ["((1))", "( 1 )", " 7 ", "((1) + (2))", "( 'a' )", "((1 + 2))", "(('a'))", "('a' || 'b')", "('x' || c || 'y')"]
+EXPR_ODD = ["((1))", "( 1 )", " 7 ", "((1) + (2))", "( 'a' )", "((1 + 2))", "(('a'))", "('a' || 'b')", "('x' || 'y' || 'z')"]
 FUNCS = ["now", "current_timestamp"]
 
 FK_ACTIONS = [None, None, None, "CASCADE", "SET NULL", "RESTRICT", "NO ACTION"]
